@@ -382,4 +382,44 @@ theorem decode_walk_bound_rand (L : List UInt8) (idx : Nat) (hn : 0 < L.length) 
   simp only [decode, if_true]
   exact hl _ (by rw [hi]; exact hlen)
 
+/-! ### Cell values stay below 2^28 (no `uint32_t` wrap-around anywhere) -/
+
+theorem decode_cells_lt (rand : Bool) (L : List UInt8) (idx : Nat) (q : Nat) :
+    (decode rand idx L (counts L)).tt.getD q 0 < (L.length + 1) * 256 := by
+  obtain ⟨hlen, htt, _⟩ := link_state L
+  cases rand with
+  | false =>
+    simp only [decode, Bool.false_eq_true, if_false]
+    by_cases hq : q < L.length
+    · rw [htt q hq]
+      have := byteAt_lt L q
+      have := S_lt L q (by omega)
+      have h1 : S L L.length q * 256 ≤ (L.length - 1) * 256 := Nat.mul_le_mul_right _ (by omega)
+      have h2 : (L.length - 1) * 256 + 256 ≤ (L.length + 1) * 256 := by
+        rw [← Nat.succ_mul]; exact Nat.mul_le_mul_right _ (by omega)
+      omega
+    · rw [List.getD_eq_getElem?_getD, List.getElem?_eq_none (by rw [hlen]; omega)]
+      simp
+  | true =>
+    have hi : ∀ (F : List Nat) (todo i j : Nat) (tt : List Nat),
+        (insitu F todo i j tt).length = tt.length := by
+      intro F todo
+      induction todo with
+      | zero => intro i j tt; rfl
+      | succ todo ih => intro i j tt; simp [insitu, ih]
+    simp only [decode, if_true]
+    generalize hg : derandLoop L.length L.length 0 Gen.RAND_THRESH
+      (insitu (link (L.map (·.toNat)) (cumulate 0 (counts L)) L.length).2 L.length 0 idx
+        (link (L.map (·.toNat)) (cumulate 0 (counts L)) L.length).1) = tt3
+    have h3 : tt3.length = L.length := by
+      rw [← hg, derandLoop_length, hi]; exact hlen
+    by_cases hq : q < L.length
+    · rw [reform_getD tt3 q (by omega), Nat.shiftLeft_eq]
+      have : tt3.getD q 0 % 256 < 256 := Nat.mod_lt _ (by omega)
+      have h1 : (q + 1) * 2 ^ 8 ≤ L.length * 256 := Nat.mul_le_mul_right _ (by omega)
+      have h2 : L.length * 256 + 256 = (L.length + 1) * 256 := by rw [Nat.succ_mul]
+      omega
+    · rw [List.getD_eq_getElem?_getD, List.getElem?_eq_none (by rw [reform_length, h3]; omega)]
+      simp
+
 end LbzVerif.Lemmas.IbwtRand
